@@ -16,8 +16,9 @@ void stdout_channel::async_read(std::function<void(terminalpp::bytes)> const &)
 // ==========================================================================
 void stdout_channel::write(terminalpp::bytes data)
 {
-    // std::cout.write(reinterpret_cast<char const *>(data.begin()),
-    // data.ssize());
+    std::cout.write(
+        reinterpret_cast<char const *>(data.data()),
+        static_cast<std::streamsize>(data.size()));
 }
 
 // ==========================================================================
